@@ -990,3 +990,75 @@ def rule_fr2(ctx):
             "the original's vertices / endpoints while its edges / ideal "
             "endpoints / projected vector are not recomputed",
             instance="flatten_to_unit:set-before-return")
+
+
+def rule_dual1(ctx):
+    r = ctx.r
+    r.rule("DUAL1", "dual data (a linear functional, e.g. the affine chart "
+                    "stored with a ConvexPolygon) transforms "
+                    "CONTRAGREDIENTLY: in Transformation.apply the "
+                    "`_apply_to_data` call that moves `dual_data` selects "
+                    "the inverse-transpose branch (dual=True), the calls for "
+                    "proj_data / aux_data do not. Moving a functional like a "
+                    "point loses the pairing <dual, point>: the stored chart "
+                    "of A @ polygon cuts through the polygon")
+    f = ctx.p.get_function(PROJ, "Transformation.apply")
+    h = ctx.p.get_function(PROJ, "Transformation._apply_to_data")
+    r.analysed(f)
+    r.analysed(h)
+    hp = [p for p in h.params if p != "self"]
+    if "dual" not in hp:
+        r.note("DUAL1", loc(h, h.node), "_apply_to_data",
+               "no `dual` parameter any more (not judged)")
+        return
+    # the branch exists: `if dual:` rebinding the matrix to an inverse
+    has_branch = any(isinstance(n, ast.If) and any(
+        isinstance(x, ast.Name) and x.id == "dual" for x in ast.walk(n.test))
+        for n in ast.walk(h.node))
+    if not has_branch:
+        r.note("DUAL1", loc(h, h.node), "_apply_to_data",
+               "`dual` no longer selects a branch (not judged)")
+        return
+    n = 0
+    for c in ast.walk(f.node):
+        if not (isinstance(c, ast.Call) and isinstance(c.func, ast.Attribute)
+                and c.func.attr == "_apply_to_data" and c.args):
+            continue
+        what = {x.attr for x in ast.walk(c.args[0])
+                if isinstance(x, ast.Attribute)} | {
+            x.id for x in ast.walk(c.args[0]) if isinstance(x, ast.Name)}
+        role = "dual" if "dual_data" in what else (
+            "point" if what & {"proj_data", "aux_data"} else None)
+        if role is None:
+            continue
+        n += 1
+        val = None
+        idx = hp.index("dual")
+        if len(c.args) > idx:
+            val = c.args[idx]
+        for k in c.keywords:
+            if k.arg == "dual":
+                val = k.value
+        truth = const_value(val) if val is not None else False
+        inst = f"Transformation.apply:{role}@{sorted(what & {'dual_data', 'proj_data', 'aux_data'})[0]}"
+        if role == "dual" and truth is not True:
+            r.violation(
+                "DUAL1", f"{f.fq}|dual_data", loc(f, c), dotted(c)[:100],
+                "the dual data is sent through `_apply_to_data` without "
+                "dual=True, i.e. multiplied by M like a point; the "
+                "inverse-transpose branch of the helper is dead code. For a "
+                "ConvexPolygon (unit square, dual [1,0,0]) under "
+                "[[1,-2,-2],[0,1,-2],[-2,0,1]] the stored functional pairs "
+                "[5,3,-1,1] with the moved vertices instead of [1,1,1,1]",
+                instance=inst)
+        elif role == "point" and truth is True:
+            r.violation(
+                "DUAL1", f"{f.fq}|{inst}", loc(f, c), dotted(c)[:100],
+                "point / auxiliary data is moved with the inverse "
+                "transpose", instance=inst)
+        else:
+            r.ok("DUAL1", inst, loc(f, c), dotted(c)[:80],
+                 f"{role} data: dual={truth}")
+    if n == 0:
+        r.note("DUAL1", loc(f, f.node), "Transformation.apply",
+               "no `_apply_to_data` call on proj/aux/dual data (not judged)")
